@@ -206,6 +206,7 @@ type niInst struct {
 	heavy    bool
 	unitMS   int
 	sigName  string // the sigma protocol's own name (the Fischlin compiler selects rho by it)
+	noRename bool   // the protocol name is fixed inside the library (no "other protocol name" edit)
 	altNames []string
 	// compileErr reports the compiler constructor's refusal (nil = admitted)
 	compileErr func(c compiler.Name) error
